@@ -830,7 +830,46 @@ def _clear_denominators(s):
     return groups
 
 
+def _split_by_fn(s):
+    """Partition a term by its uninterpreted-function monomial: fn atoms are independent indeterminates that occur only as
+    polynomial factors, so the term is zero iff the coefficient of every distinct fn-monomial is zero (keeps each query small)."""
+    parts = {}
+    for (m, z), c in s.t.items():
+        fn_part = tuple((ai, ae) for ai, ae in m if CTX.atoms[ai].kind == "fn")
+        if fn_part:
+            rest = tuple((ai, ae) for ai, ae in m if CTX.atoms[ai].kind != "fn")
+        else:
+            rest = m
+        d = parts.setdefault(fn_part, {})
+        k = (rest, z)
+        v = d.get(k, 0) + c
+        if v:
+            d[k] = v
+        else:
+            d.pop(k, None)
+    return parts
+
+
 def is_zero(s):
+    if not s.t:
+        return True
+    if any(CTX.atoms[ai].kind == "fn" for (m, z) in s.t for ai, ae in m):
+        # fn atoms inside payloads of other atoms would break independence of the split; they never are (payloads are polynomials
+        # of var/sqrt/alg/inv atoms built before any fn atom is multiplied in) -- checked here
+        for (m, z) in s.t:
+            for ai, ae in m:
+                a = CTX.atoms[ai]
+                if a.kind in ("sqrt", "alg", "inv") and any(CTX.atoms[bi].kind == "fn" for mm in a.payload for bi, be in mm):
+                    break
+            else:
+                continue
+            break
+        else:
+            return all(_is_zero_nofn(Sym(d)) for d in _split_by_fn(s).values())
+    return _is_zero_nofn(s)
+
+
+def _is_zero_nofn(s):
     if not s.t:
         return True
     groups = _clear_denominators(s)
